@@ -246,6 +246,79 @@ pub fn universe(rng: &mut Rng, base: std::time::Duration) -> Vec<EntryInitNew> {
         v.push(ent(a));
         n += 1;
     }
+    // keyed multi-values with SHARED outer keys and distinct inner identities:
+    // two applications; a person holding two application passwords for the first one (different labels) and one
+    // for the second; two more sessions issued from ONE credential; three api tokens of one issuer; two ssh key tags
+    {
+        let grp = uuid_e(n - 3);
+        let (app1, app2) = (uuid_e(n), uuid_e(n + 1));
+        for (i, app) in [app1, app2].iter().enumerate() {
+            v.push(ent(vec![
+                (Attribute::Class, EntryClass::Object.to_value()),
+                (Attribute::Class, EntryClass::Account.to_value()),
+                (Attribute::Class, EntryClass::ServiceAccount.to_value()),
+                (Attribute::Class, EntryClass::Application.to_value()),
+                (Attribute::Name, Value::new_iname(&format!("app{}x{i}", n))),
+                (Attribute::Uuid, Value::Uuid(*app)),
+                (Attribute::DisplayName, Value::new_utf8s("application")),
+                (Attribute::LinkedGroup, Value::Refer(grp)),
+            ]));
+        }
+        n += 2;
+        let me = uuid_e(n);
+        let mut a = person(n, &format!("keyed{n}"));
+        for (app, label, clear) in [(app1, "laptop", "password"), (app1, "phone", "eicieY7ahchaoCh0eeTa"), (app1, "tablet", "Password"), (app2, "laptop", "password")] {
+            let ap = kanidmd_lib::credential::apppwd::ApplicationPassword::new(app, label, clear, &pol).expect("app password");
+            a.push((Attribute::ApplicationPassword, Value::ApplicationPassword(ap)));
+        }
+        let shared_cred = Uuid::from_u128(0xc0de_5a5e);
+        for i in 0..3u128 {
+            a.push((
+                Attribute::UserAuthTokenSession,
+                Value::Session(
+                    Uuid::from_u128(0x5e55_7777_0000_4000_8000_0000_0000_0000u128 + i),
+                    Session {
+                        label: format!("same-cred-{i}"),
+                        state: if i == 2 { SessionState::ExpiresAt(odt + std::time::Duration::from_secs(120)) } else { SessionState::NeverExpires },
+                        issued_at: odt,
+                        issued_by: IdentityId::User(me),
+                        cred_id: shared_cred,
+                        scope: SessionScope::ReadWrite,
+                        type_: AuthType::Password,
+                        ext_metadata: Default::default(),
+                    },
+                ),
+            ));
+        }
+        for (tag, key) in [
+            ("laptop", "ssh-ed25519 AAAAC3NzaC1lZDI1NTE5AAAAIAeGW1P6Pc2rPq0XqbRaDKBcXZUPRklo0L1EyR30CwoP william@amethyst"),
+            ("desktop", "ssh-ed25519 AAAAC3NzaC1lZDI1NTE5AAAAIAeGW1P6Pc2rPq0XqbRaDKBcXZUPRklo0L1EyR30CwoP william@amethyst"),
+        ] {
+            a.push((Attribute::SshPublicKey, Value::new_sshkey_str(tag, key).expect("ssh")));
+        }
+        v.push(ent(a));
+        n += 1;
+        let svc = uuid_e(n);
+        let mut a = vec![
+            (Attribute::Class, EntryClass::Object.to_value()),
+            (Attribute::Class, EntryClass::Account.to_value()),
+            (Attribute::Class, EntryClass::ServiceAccount.to_value()),
+            (Attribute::Name, Value::new_iname(&format!("svck{n}"))),
+            (Attribute::Uuid, Value::Uuid(svc)),
+            (Attribute::DisplayName, Value::new_utf8s("svc keyed")),
+        ];
+        for i in 0..3u128 {
+            a.push((
+                Attribute::ApiTokenSession,
+                Value::ApiToken(
+                    Uuid::from_u128(0xa91_1000 + i),
+                    ApiToken { label: format!("same-issuer-{i}"), expiry: None, issued_at: odt, issued_by: IdentityId::User(svc), scope: ApiTokenScope::ReadOnly },
+                ),
+            ));
+        }
+        v.push(ent(a));
+        n += 1;
+    }
     // an entry that will be recycled (whole-entry form of a deleted entry)
     {
         let mut a = person(n, &format!("gone{n}"));
@@ -275,7 +348,13 @@ pub async fn observe(qs: &QueryServer, detail: bool) -> J {
                 json!({"*": kvs::fnv(&s.join("\n"))})
             }
         };
-        out.insert(id, json!({"live": live, "r": f(r), "n": f(n)}));
+        // keyed multi-values as sets of (outer key, inner identity) pairs (harness-made entries only)
+        let p: Map<String, J> = if model {
+            kvs::entry_pairs(e).into_iter().map(|(a, ps)| (a, json!(ps.into_iter().map(|(k, i)| json!([k, i])).collect::<Vec<_>>()))).collect()
+        } else {
+            Map::new()
+        };
+        out.insert(id, json!({"live": live, "r": f(r), "n": f(n), "p": p}));
     }
     J::Object(out)
 }
